@@ -32,6 +32,20 @@ clang's typed AST (`clang-14 -Xclang -ast-dump=json`).  The result is a SHALLOW 
     statement (or after the evaluation of a loop / if condition);
   * regions passed through different parameters are assumed not to overlap (trusted base), except the `flat` ones.
 
+  * a pointer LOCAL that is assigned NULL somewhere (or declared `= NULL` and NULL-tested) carries its NULLness in the Bool field `<p>_null`;
+    arithmetic on / comparison of / access through it while NULL is recorded in `ub`.  `p = f(…)` with f in opts['assume_ptr_calls']
+    (name -> Bool entry parameter) gives a pointer that can only be NULL-tested (its NULLness is that parameter);
+  * `(*dp)->fld`, `dp` a pointer into an array of POINTERS TO STRUCTS (region R, e.g. `(NC_dim **)dims->values + i`): cell `dp` of the region
+    `R_fld` (the caller passes the members `fld` of the pointed-to structs as that list; the access is checked against both R and R_fld);
+  * `p->m = q`, `q` the start of a block this function allocated (malloc): the member is RE-SEATED; the Bool field `p_m_seat` records it and
+    the member's new content is the block's region (the translation fails when the function also accesses the member's old memory);
+    `p->m = NULL` sets the (entry) Bool `p_m_null` and clears `p_m_seat`;
+  * a switch group may fall through into a following group that consists of `break` alone (`case A: stmts  default: break;`);
+    opts['unmodelled_cases'] (macro / enum names, resolved by compiling): the statements of the switch groups with these labels are NOT
+    translated - reaching such a group is recorded in `ub` (stated in the generated doc comment);
+  * a scalar assignment on the right of `&&` (`a && (x = e) >= 0`) becomes a conditional store (`x := if a then e else x`);
+  * opts['c_names'] (Lean/source name -> symbol after preprocessing) for functions renamed by a macro (`#define NC_var_shape H4_NC_var_shape`).
+
 Everything outside the supported subset makes the translator FAIL loudly (it never guesses): goto, switch, calls other
 than memcpy and the names in opts['ignore_calls'] (error reporting that does not touch the modelled state),
 address-of other than `&a[i]`, floating point, struct assignment, pointer-to-pointer arithmetic.
@@ -163,6 +177,10 @@ class Fn:
         self.loop_assigned = set()
         self.setters = []
         self.owner = None        # struct parameter whose member is being registered (entry parameters are grouped per C parameter)
+        self.lbools = []         # Bool state fields that are not inputs: `<p>_null` of a pointer local that can be NULL, `<member>_seat`
+        self.nullable = set()    # pointer locals that are assigned / initialised with NULL: their NULLness is the field `<p>_null`
+        self.seats = {}          # pointer members re-seated to a block the function allocated: member region name -> block region
+        self.used_names = set()
         self.plist = []
 
     # ---------------------------------------------------------------- fields
@@ -255,9 +273,14 @@ class Fn:
             reg = self.ptr[nm]
             if reg is None:
                 fail("%s: region of pointer %s could not be determined" % (self.name, nm))
+            if reg == "!opaque":
+                fail("%s: pointer %s (result of an assumed call) is used other than in a NULL test" % (self.name, nm))
             own = reg if reg in [lname(x) for x in self.plist] else None
             if nm in self.ptr_is_param_region or lname(nm) in self.local_regions:
                 return (self.owned(own, self.region, reg), "0", [], [])
+            if nm in self.nullable:
+                # arithmetic on / comparison of / access through a pointer that is NULL is undefined
+                return (self.owned(own, self.region, reg), "s.%s" % self.pix(nm), ["s.%s = false" % self.nullf(nm)], [])
             return (self.owned(own, self.region, reg), "s.%s" % self.pix(nm), [], [])
         if k == "MemberExpr":
             return (self.member_region(n), "0", [], [])
@@ -418,8 +441,41 @@ class Fn:
                 if ty is None:
                     fail("%s: member %s->%s is not an integer" % (self.name, p, ".".join(path)))
                 return ("scalar", self.owned(p, self.scalar, "%s_%s" % (p, "_".join(path)), entry=True), ty)
+            if b.get("kind") == "UnaryOperator" and b.get("opcode") == "*" and ptr_elem(qt(b)) is not None and ty is not None:
+                # (*dp)->fld, `dp` a pointer into an array of POINTERS TO STRUCTS (region R): the member `fld` of the struct the cell
+                # points to is cell `dp` of the region R_fld (the caller passes the members of the pointed-to structs as that list)
+                r, i, c, e = self.pexpr(b["inner"][0])
+                if r.startswith("#") or r.startswith("@") or r == "mem" or r in self.local_regions:
+                    fail("%s: member %s of a struct reached through region %s" % (self.name, fld, r))
+                own = [o for (n_, t_, o) in self.entry if n_ == r]
+                reg = self.owned(own[0] if own else None, self.region, "%s_%s" % (r, fld))
+                note = "region `%s` holds the member `%s` of the structs the pointers in `%s` point to" % (reg, fld, r)
+                if note not in self.notes:
+                    self.notes.append(note)
+                return ("elem", reg, i, c + [self.inb(r, i), self.inb(reg, i)], e, ty)
             fail("%s: member access %s" % (self.name, fld))
         fail("%s: unsupported lvalue %s" % (self.name, k))
+
+    def nullf(self, nm):
+        """Bool state field: pointer local `nm` (one that is assigned or initialised with NULL somewhere) is NULL"""
+        f = lname(nm) + "_null"
+        if f not in self.lbools:
+            self.lbools.append(f)
+        return f
+
+    def seatf(self, mname):
+        f = mname + "_seat"
+        if f not in self.lbools:
+            self.lbools.append(f)
+        return f
+
+    def chain_null(self, n):
+        """`a = b = NULL` (the value of the assignment expression is NULL)"""
+        while n.get("kind") in ("ParenExpr", "ImplicitCastExpr", "CStyleCastExpr"):
+            if n.get("castKind") == "NullToPointer":
+                return True
+            n = n["inner"][0]
+        return n.get("kind") == "BinaryOperator" and n.get("opcode") == "=" and (self.is_null(n["inner"][1]) or self.chain_null(n["inner"][1]))
 
     def pix(self, nm):
         """state field holding the index of pointer variable `nm` (a moved pointer PARAMETER `p` is region `p` + index `p_i`)"""
@@ -717,8 +773,11 @@ class Fn:
                 if len(self.pre_lines) != npre:
                     fail("%s: call of a translated function on the right of &&" % self.name)
                 if eb:
-                    fail("%s: side effect on the right of &&" % self.name)
-                return "(%s ∧ %s)" % (ta, tb), ca + ["¬%s ∨ (%s)" % (ta, x) for x in cb], ea
+                    # the right operand is evaluated only when the left one is true: its (scalar) stores become conditional ones
+                    if ea or any(x.lv[0] != "scalar" for x in eb):
+                        fail("%s: side effect on the right of &&" % self.name)
+                    eb = [Eff(x.lv, "(if %s then %s else s.%s)" % (ta, x.term, x.lv[1]), x.var) for x in eb]
+                return "(%s ∧ %s)" % (ta, tb), ca + ["¬%s ∨ (%s)" % (ta, x) for x in cb], ea + eb
             if op == "||":
                 ta, ca, ea = self.cond(a)
                 npre = len(self.pre_lines)
@@ -752,6 +811,8 @@ class Fn:
         if f is None and k == "BinaryOperator" and n.get("opcode") == "=":
             r, i, c, e = self.pexpr(n)      # performs the assignment (pre-lines / effects)
             return ("False" if want_null else "True"), c, e
+        if f is None and k == "DeclRefExpr" and n["referencedDecl"]["name"] in self.nullable:
+            f = self.nullf(n["referencedDecl"]["name"])
         if f is None and k == "DeclRefExpr" and n["referencedDecl"]["name"] in self.ptr:
             # a pointer local that was bound to a region: non-NULL (regions exist)
             return ("False" if want_null else "True"), [], []
@@ -898,6 +959,10 @@ class Fn:
                         r, i, c, e = self.pexpr(init[0])
                         self.same_region(nm, r)
                         out += self.with_effects(c, [(("scalar", self.pix(nm)), i)], e, ind)
+                        if nm in self.nullable:
+                            out.append(self.upd(self.nullf(nm), "false", ind))
+                    elif init and nm in self.nullable:
+                        out.append(self.upd(self.nullf(nm), "true", ind))
                     continue
                 ty = int_width(qt(d))
                 if ty is None:
@@ -989,6 +1054,12 @@ class Fn:
             return out
         if k == "GotoStmt":
             return [self.upd("gto", "true", ind)]
+        if k == "H4Unmodelled":
+            # a switch group named in opts['unmodelled_cases']: its C text is NOT translated; reaching it is recorded in `ub`
+            note = "the switch group(s) `case %s` are outside the translated subset (opts['unmodelled_cases']): reaching one is recorded as `ub`" % ", ".join(self.opts.get("unmodelled_cases", []))
+            if note not in self.notes:
+                self.notes.append(note)
+            return self.checks(["False"], ind)
         if k == "LabelStmt":
             fail("%s: label inside a nested statement" % self.name)
         if k == "BreakStmt":
@@ -1005,7 +1076,7 @@ class Fn:
         scrut, body = inner[0], inner[-1]
         if body.get("kind") != "CompoundStmt":
             fail("%s: switch body is not a block" % self.name)
-        groups, cur = [], None     # (labels | None for default, [stmts])
+        groups, cur, falls = [], None, []     # (labels | None for default, [stmts])
         for c in body.get("inner", []):
             labels, first = [], c
             while first.get("kind") in ("CaseStmt", "DefaultStmt"):
@@ -1024,7 +1095,7 @@ class Fn:
                     first = first["inner"][-1]
             if labels:
                 if cur is not None and cur[1] and not self.ends_group(cur[1]):
-                    fail("%s: switch group falls through into the next case" % self.name)
+                    falls.append(len(groups))      # allowed only into a group that consists of `break` alone (checked below)
                 if cur is not None and not cur[1]:
                     cur[0].extend(labels)
                 else:
@@ -1033,6 +1104,9 @@ class Fn:
             elif cur is None:
                 fail("%s: statement before the first case label" % self.name)
             cur[1].append(first)
+        for gi in falls:
+            if gi >= len(groups) or any(x.get("kind") != "BreakStmt" for x in groups[gi][1]):
+                fail("%s: switch group falls through into the next case" % self.name)
         st, sc, se = self.rvalue(scrut)
         out = self.checks(sc, ind)
         out.append("%slet sw : Int := %s" % (ind, st))
@@ -1098,8 +1172,28 @@ class Fn:
                     fail("%s: a pointer into region %s is stored in an array of pointers (only flat addresses can be)" % (self.name, r))
                 return self.with_effects(c + lv[3], [(lv, i)], e + lv[4], ind)
             if sl.get("kind") == "MemberExpr":
-                # `info->buf = <pointer to the start of the region info_buf>` (after realloc, or restoring a saved copy): the region stays the
-                # member's region; anything else would re-seat the member to other memory, which the region model cannot express
+                p_, path_ = self.member_chain(sl)
+                mname = lname("%s_%s" % (p_, "_".join(path_))) if p_ is not None else None
+                if mname is not None and self.is_null(rhs):
+                    # `var->shape = NULL`: the answer to later NULL tests of the member; a block it was re-seated to is no longer its content
+                    out_ = [self.upd(self.owned(p_, self.boolf, mname + "_null"), "true", ind)]
+                    if mname in self.seats:
+                        out_.append(self.upd(self.seatf(mname), "false", ind))
+                    return out_
+                if mname is not None and mname in self.seats:
+                    # `var->shape = shape`, `shape` the start of a block this function allocated: the member is RE-SEATED to that block.
+                    # The state records it in `<member>_seat`; the member's new content is the block's region.  (The old memory of the
+                    # member must not be accessed by this function - checked at the end of the translation.)
+                    r, i, c, e = self.pexpr(rhs)
+                    if r != self.seats[mname] or e:
+                        fail("%s: member pointer %s re-seated to region %s" % (self.name, mname, r))
+                    note = "`%s_seat = true`: the member pointer was re-seated, its new content is the region `%s`" % (mname, r)
+                    if note not in self.notes:
+                        self.notes.append(note)
+                    out_ = self.checks(c + ["%s = 0" % i], ind) + [self.upd(self.seatf(mname), "true", ind)]
+                    if (mname + "_null") in self.bools:
+                        out_.append(self.upd(mname + "_null", "false", ind))
+                    return out_
                 reg = self.member_region(sl)
                 r, i, c, e = self.pexpr(rhs)
                 if r != reg:
@@ -1111,7 +1205,22 @@ class Fn:
             if nm in self.ptr_is_param_region or lname(nm) in self.local_regions:
                 fail("%s: assignment to pointer parameter %s, which is used as a region" % (self.name, nm))
             if self.is_null(rhs):
-                fail("%s: NULL assigned to pointer %s" % (self.name, nm))
+                if nm not in self.nullable:
+                    fail("%s: NULL assigned to pointer %s" % (self.name, nm))
+                return [self.upd(self.nullf(nm), "true", ind)]
+            if chained and self.chain_null(srhs):
+                if nm not in self.nullable:
+                    fail("%s: NULL assigned to pointer %s" % (self.name, nm))
+                return self.assignment(srhs, ind) + [self.upd(self.nullf(nm), "true", ind)]
+            if srhs.get("kind") == "CallExpr" and self.static_region(srhs) == "!opaque":
+                # p = f(…), f in opts['assume_ptr_calls']: the pointer itself is not modelled, only whether it is NULL (an entry parameter)
+                cn = self.skip(srhs["inner"][0])["referencedDecl"]["name"]
+                fld = self.boolf(self.opts["assume_ptr_calls"][cn])
+                note = "every call of `%s` returns a pointer that is NULL iff the entry parameter `%s` is true (the pointer is only tested, never used)" % (cn, fld)
+                if note not in self.notes:
+                    self.notes.append(note)
+                return [self.upd(self.nullf(nm), "s.%s" % fld, ind)]
+            notnull = [self.upd(self.nullf(nm), "false", ind)] if nm in self.nullable else []
             if srhs.get("kind") == "CallExpr" and self.static_region(srhs) == "!malloc":
                 # p = malloc(bytes): a fresh block of bytes / sizeof(*p) cells holding the poison value 170 (indeterminate in C); never fails
                 reg = self.ptr[nm]
@@ -1125,15 +1234,15 @@ class Fn:
                 else:
                     a1, c1, e1 = self.rvalue(srhs["inner"][1])
                     cells, cks, fillv = "(Int.tdiv %s %d)" % (a1, esz), c1, "170"
-                return self.checks(cks + ["(0 : Int) ≤ %s" % cells], ind) + [self.upd(reg, "List.replicate (Int.toNat %s) %s" % (cells, fillv), ind)] + self.assign(("scalar", self.pix(nm)), "0", ind)
+                return self.checks(cks + ["(0 : Int) ≤ %s" % cells], ind) + [self.upd(reg, "List.replicate (Int.toNat %s) %s" % (cells, fillv), ind)] + self.assign(("scalar", self.pix(nm)), "0", ind) + notnull
             if chained:
                 inner = self.assignment(srhs, ind)
                 r, i, c, e = self.pexpr(srhs["inner"][0])
                 self.same_region(nm, r)
-                return inner + self.assign(("scalar", self.pix(nm)), i, ind)
+                return inner + self.assign(("scalar", self.pix(nm)), i, ind) + notnull
             r, i, c, e = self.pexpr(rhs)
             self.same_region(nm, r)
-            return self.with_effects(c, [(("scalar", self.pix(nm)), i)], e, ind)
+            return self.with_effects(c, [(("scalar", self.pix(nm)), i)], e, ind) + notnull
         if chained:
             inner = self.assignment(srhs, ind)
             lv = self.lvalue(lhs)
@@ -1444,11 +1553,29 @@ class Fn:
             cn = self.skip(n["inner"][0]).get("referencedDecl", {}).get("name")
             if cn in ("malloc", "calloc", "HDmalloc", "HDcalloc"):
                 return "!malloc"
+            if cn in self.opts.get("assume_ptr_calls", {}):
+                return "!opaque"
         return None
+
+    def null_tested(self, n, nm):
+        """the pointer local `nm` occurs in a NULL test (`p == NULL`, `p != NULL`, `if (p)`, `!p`, `p && …`)"""
+        k = n.get("kind")
+        def is_nm(x):
+            x = self.skip(x)
+            return x.get("kind") == "DeclRefExpr" and x["referencedDecl"]["name"] == nm
+        if k == "BinaryOperator" and n.get("opcode") in ("==", "!="):
+            a, b = n["inner"]
+            if (self.is_null(a) and is_nm(b)) or (self.is_null(b) and is_nm(a)):
+                return True
+        if k == "ImplicitCastExpr" and n.get("castKind") == "PointerToBoolean" and is_nm(n["inner"][0]):
+            return True
+        return any(self.null_tested(c, nm) for c in n.get("inner", []) if isinstance(c, dict))
 
     def resolve_ptr_locals(self, body):
         assigns = []    # (pointer local, rhs node)
         alias_assigns = []
+        null_inits = []   # pointer locals declared with `= NULL`
+        seat_assigns = []  # (member lvalue, rhs): pointer members that are assigned a non-NULL pointer
 
         def walk(n):
             k = n.get("kind")
@@ -1468,6 +1595,8 @@ class Fn:
                     self.statics.append(n["name"])
                 if init and not self.is_null(init[0]):
                     assigns.append((n["name"], init[0]))
+                elif init:
+                    null_inits.append(n["name"])
             if k == "BinaryOperator" and n.get("opcode") == "=" and ptr_elem(qt(n["inner"][0])) is not None:
                 l = self.skip(n["inner"][0])
                 if l.get("kind") == "DeclRefExpr" and l["referencedDecl"]["name"] in self.alias_locals:
@@ -1475,6 +1604,12 @@ class Fn:
                         alias_assigns.append((l["referencedDecl"]["name"], n["inner"][1]))
                 elif l.get("kind") == "DeclRefExpr" and not self.is_null(n["inner"][1]):
                     assigns.append((l["referencedDecl"]["name"], n["inner"][1]))
+                    if self.chain_null(n["inner"][1]):
+                        self.nullable.add(l["referencedDecl"]["name"])
+                elif l.get("kind") == "DeclRefExpr":
+                    self.nullable.add(l["referencedDecl"]["name"])
+                elif l.get("kind") == "MemberExpr" and not self.is_null(n["inner"][1]):
+                    seat_assigns.append((l, n["inner"][1]))
             for c in n.get("inner", []):
                 walk(c)
         walk(body)
@@ -1488,8 +1623,10 @@ class Fn:
             if nm in self.aliases and self.aliases[nm] != (p0, path0):
                 fail("%s: struct pointer %s is bound to two different objects" % (self.name, nm))
             self.aliases[nm] = (p0, path0)
-        for nm in self.alias_locals:
+        for nm in sorted(self.alias_locals):
             if nm not in self.aliases:
+                if nm not in self.used_names:
+                    continue      # declared but never used (its uses were in an unmodelled switch group)
                 fail("%s: struct pointer %s is never bound" % (self.name, nm))
         changed = True
         while changed:
@@ -1510,6 +1647,18 @@ class Fn:
                 r = lname(nm) + "_blk"
             if r is not None and nm not in self.ptr_is_param_region and self.ptr.get(nm) != r:
                 fail("%s: pointer %s points into two regions (%s, %s)" % (self.name, nm, self.ptr.get(nm), r))
+        for nm in self.ptr:
+            if self.ptr[nm] == "!opaque":
+                self.nullable.add(nm)
+        for nm in null_inits:
+            # declared `T *p = NULL`: its NULLness is tracked when the function tests or re-assigns NULL to it
+            if nm in self.nullable or self.null_tested(body, nm):
+                self.nullable.add(nm)
+        for lv_, rhs in seat_assigns:
+            p_, path_ = self.member_chain(lv_)
+            r = self.static_region(rhs)
+            if p_ is not None and r in self.local_regions and r.endswith("_blk"):
+                self.seats[lname("%s_%s" % (p_, "_".join(path_)))] = r
 
     # ---------------------------------------------------------------- whole function
     def scan_flags(self, n, in_switch=False):
@@ -1545,9 +1694,62 @@ class Fn:
         walk(body)
         return out
 
+    def prune_cases(self, n, vals):
+        """opts['unmodelled_cases']: in every switch, the statements of a group all of whose labels are in `vals` are replaced by the
+        marker statement H4Unmodelled (+ break).  Works on a private copy of the AST."""
+        if n.get("kind") == "SwitchStmt":
+            body = [c for c in n["inner"] if c.get("kind")][-1]
+            if body.get("kind") == "CompoundStmt":
+                new, pruning = [], False
+                for c in body.get("inner", []):
+                    if c.get("kind") in ("CaseStmt", "DefaultStmt"):
+                        labels, chain, cur = [], [], c
+                        while cur.get("kind") in ("CaseStmt", "DefaultStmt"):
+                            chain.append(cur)
+                            if cur["kind"] == "CaseStmt":
+                                ce = cur["inner"][0]
+                                v_ = ce.get("value") if ce.get("kind") == "ConstantExpr" else None
+                                if v_ is None:
+                                    v_, cv_, ev_ = self.rvalue(ce)
+                                    if cv_ or ev_:
+                                        fail("%s: case label is not a constant" % self.name)
+                                labels.append(str(v_))
+                            else:
+                                labels.append(None)
+                            cur = cur["inner"][-1]
+                        hit = [l for l in labels if l is not None and l in vals]
+                        if hit and len(hit) != len(labels):
+                            fail("%s: an unmodelled case label shares its group with other labels" % self.name)
+                        pruning = bool(hit)
+                        if pruning:
+                            chain[-1]["inner"][-1] = {"kind": "H4Unmodelled"}
+                            new.append(c)
+                            new.append({"kind": "BreakStmt"})
+                            continue
+                    elif pruning:
+                        continue
+                    new.append(c)
+                body["inner"] = new
+        for c in n.get("inner", []):
+            if isinstance(c, dict):
+                self.prune_cases(c, vals)
+
+    def referenced(self, n, acc):
+        if n.get("kind") == "DeclRefExpr":
+            acc.add(n.get("referencedDecl", {}).get("name"))
+        for c in n.get("inner", []):
+            if isinstance(c, dict):
+                self.referenced(c, acc)
+        return acc
+
     def translate(self):
         ast = self.ast
+        if self.opts.get("unmodelled_cases"):
+            import copy
+            ast = copy.deepcopy(ast)
+            self.prune_cases(ast, set(self.const(nm_) for nm_ in self.opts["unmodelled_cases"]))
         body = [c for c in ast["inner"] if c.get("kind") == "CompoundStmt"][0]
+        self.used_names = self.referenced(body, set())
         mutated = self.assigned_vars(body)
         for p in [c for c in ast["inner"] if c.get("kind") == "ParmVarDecl"]:
             t = base_type(qt(p))
@@ -1600,6 +1802,8 @@ class Fn:
                 fail("%s: pointer %s is never bound to a region" % (self.name, nm))
             if nm in self.statics and nm in self.ptr_is_param_region:
                 self.region(nm)          # static local array: an entry parameter
+            elif reg == "!opaque":
+                continue
             elif nm not in self.ptr_is_param_region and nm not in self.flat and lname(nm) not in self.local_regions and nm not in self.pidx:
                 self.scalar(nm, entry=(nm in self.statics))
         def loops_(n, inloop):
@@ -1621,6 +1825,9 @@ class Fn:
         last = body.get("inner", [None])[-1] if body.get("inner") else None
         self.has_ret = any(r is not last for r in self._rets)
         lines = self.stmt(body, "  ")
+        for mname in self.seats:
+            if mname in self.regions:
+                fail("%s: the memory of member %s is accessed although the member is re-seated to a block of this function" % (self.name, mname))
         # assemble
         # entry parameters: in the order of the C parameters (a struct parameter expands to its members in order of first use), then the rest
         ordered = []
@@ -1639,6 +1846,8 @@ class Fn:
             st.append("  %s : Int%s" % (f, "" if f in given else " := 0"))
         for f in self.bools:
             st.append("  %s : Bool" % f)
+        for f in self.lbools:
+            st.append("  %s : Bool := false" % f)
         for f in self.rowsets:
             st.append("  %s : List (List Int)" % f)
         for f in self.regions + [r for r in self.local_regions if r not in self.regions]:
@@ -1664,7 +1873,7 @@ class Fn:
             ftype[f] = "List Int"
         for f in self.rowsets:
             ftype[f] = "List (List Int)"
-        for f in ("retnull", "done", "brk", "cnt", "gto"):
+        for f in ["retnull", "done", "brk", "cnt", "gto"] + self.bools + self.lbools:
             ftype[f] = "Bool"
         ftype["ret"] = "Int"
         if self.uses_join:
@@ -1743,7 +1952,13 @@ def translate_unit(repo, bdir, unit, cfile, fns, opts=None):
         fo = dict(opts)
         fo.update(opts.get("per_fn", {}).get(fn, {}))
         fo["_fns"] = dict(done_fns)
-        ast = clang_ast(os.path.join(repo, cfile), fn, incs)
+        need = [c_ for c_ in fo.get("unmodelled_cases", []) if c_ not in fo.get("consts", {})]
+        if need:
+            # the labels of the switch groups to leave out are needed before the first pass (the AST is pruned first)
+            fo["consts"] = dict(fo.get("consts", {}), **resolve_consts(repo, bdir, cfile, set(need), incs))
+        # opts['c_names']: the symbol the preprocessor makes of the function's name (`#define NC_var_shape H4_NC_var_shape`)
+        ast = clang_ast(os.path.join(repo, cfile), fo.get("c_names", {}).get(fn, fn), incs)
+        ast["name"] = fn
         f = Fn(ast, unit, fo)
         txt, params = f.translate()
         missing = fo.pop("_missing_consts", None)
